@@ -796,6 +796,41 @@ def extract_macro(repo):
     body = norm(fn_body(d, 'contains_component'))
     if body != 'for component in self.components.iter() { if component.name == name.to_string() { return true; } } false':
         raise ExtractError('contains_component: unexpected body %r' % body)
+    # the cfg-probing macro_rules! chain (generate/cfg.rs): how each link extends the list of booleans
+    c = strip_comments(open(os.path.join(repo, 'macros/src/generate/cfg.rs')).read())
+    out.append('(* generate/cfg.rs: each link of the macro_rules! chain is emitted twice, under #[cfg(p)] and #[cfg(not(p))];')
+    out.append('   (appends, literal): whether the link appends (true) or prepends (false) its literal to the list so far *)')
+    templ = {
+        'outer': ('let predicates = source.collect_all_cfg_predicates(); let mut macros = Vec::<TokenStream>::with_capacity(predicates.len()); '
+                  'let start = format_ident!("__cfg_ecs_{}_0", name); let finish = format_ident!("__impl_ecs_{}", name); '
+                  'if predicates.is_empty() { return quote!(::gecs::__internal::#finish!((), { #raw });); } '
+                  'for (idx, predicate) in predicates.iter().enumerate() { let this = format_ident!("__cfg_ecs_{}_{}", name, idx); '
+                  'let next = format_ident!("__cfg_ecs_{}_{}", name, idx + 1); let next = if (idx + 1) == predicates.len() { quote!(::gecs::__internal::#finish) } '
+                  'else { quote!(__ecs_cfg_macros::#next) }; macros.push(quote!( #[cfg(#predicate)] #[doc(hidden)] macro_rules! #this { '
+                  '(($($bools:expr),*), $($args:tt)*) => { #next!(@POS@, $($args)*); } } #[cfg(not(#predicate))] #[doc(hidden)] macro_rules! #this { '
+                  '(($($bools:expr),*), $($args:tt)*) => { #next!(@NEG@, $($args)*); } } pub(super) use #this; )); } '
+                  'quote!( mod __ecs_cfg_macros { #(#macros)* } __ecs_cfg_macros::#start!((), { #raw }); )'),
+        'inner': ('let predicates = source.collect_all_cfg_predicates(); let mut macros = Vec::<TokenStream>::with_capacity(predicates.len()); '
+                  'let start = format_ident!("__cfg_ecs_{}_0", name); let finish = format_ident!("__impl_ecs_{}", name); '
+                  'if predicates.is_empty() { return quote!( { ::gecs::__internal::#finish!((), { #raw }) } ); } '
+                  'for (idx, predicate) in predicates.iter().enumerate() { let this = format_ident!("__cfg_ecs_{}_{}", name, idx); '
+                  'let next = format_ident!("__cfg_ecs_{}_{}", name, idx + 1); let next = if (idx + 1) == predicates.len() { quote!(::gecs::__internal::#finish) } '
+                  'else { quote!(#next) }; macros.push(quote!( #[cfg(#predicate)] #[doc(hidden)] macro_rules! #this { '
+                  '(($($bools:expr),*), $($args:tt)*) => { #next!(@POS@, $($args)*) } } #[cfg(not(#predicate))] #[doc(hidden)] macro_rules! #this { '
+                  '(($($bools:expr),*), $($args:tt)*) => { #next!(@NEG@, $($args)*) } } )); } '
+                  'quote!( { #(#macros)* #start!((), { #raw }) } )'),
+    }
+    forms = {'($($bools,)* true)': ('true', 'true'), '($($bools,)* false)': ('true', 'false'),
+             '(true $(, $bools)*)': ('false', 'true'), '(false $(, $bools)*)': ('false', 'false'),
+             '(true, $($bools),*)': ('false', 'true'), '(false, $($bools),*)': ('false', 'false')}
+    for which, t in templ.items():
+        body = norm(fn_body(c, 'generate_cfg_checks_' + which))
+        pat = re.escape(t).replace('@POS@', r'(\(.*?\))').replace('@NEG@', r'(\(.*?\))')
+        m = re.fullmatch(pat, body)
+        if not m or m.group(1) not in forms or m.group(2) not in forms:
+            raise ExtractError('generate_cfg_checks_%s: unexpected body %r' % (which, body))
+        out.append('Definition cfg_%s_pos : bool * bool := (%s, %s).' % ((which,) + forms[m.group(1)]))
+        out.append('Definition cfg_%s_neg : bool * bool := (%s, %s).' % ((which,) + forms[m.group(2)]))
     return '\n'.join(out) + '\n'
 
 
